@@ -316,6 +316,9 @@ func dpathSliceV2(r *ev.Run, P props, st *enumStats, gsel func(gi int) bool) {
 func init() {
 	register("C05", "exploration", func(r *ev.Run, thorough bool) {
 		st := newStats()
+		// single-goroutine histories first, while nothing else has been decoded in this process
+		r.Phase("revisit distances", func() { revisitDistances(r, thorough, 2) })
+		r.Phase("objects next to a refused continuation", func() { r.Add("twin_object_histories", twinV2Groups(r)) })
 		envFullV2(r, true, false, true, 1, st)
 		P := noScore
 		P.scoreLevel = 2
